@@ -787,6 +787,20 @@ pub fn run(cfg: &Cfg) -> Report {
       ("count(append([1], not(1)))", "2", "append deviates from its specification"),
       ("substring(\"foobar\", 8 - 5)", "\"obar\"", "substring deviates from its specification"),
       ("sublist([1, 2, 3], 4 - 2, 3 - 2)", "[2]", "sublist deviates from its specification"),
+      // regression cases of repaired findings (always run)
+      ("mean(list: [1, 2, 6])", "3", "named invocation differs from positional: mean"), // F2
+      ("all(list: true)", "true", "named invocation rejects a single item for the parameter list: all"), // F2c
+      ("sum(list: 1)", "1", "named invocation rejects a single item for the parameter list: sum"),
+      ("mode(list: 2)", "[2]", "named invocation rejects a single item for the parameter list: mode"),
+      ("sublist([1, 2, 3], -5, 1)", "null", "panic in sublist"), // F5
+      ("sublist([1, 2, 3], 2, 18446744073709551615)", "null", "panic in sublist"), // F5b
+      ("substring(\"abc\", 2, 18446744073709551615)", "null", "panic in substring"), // F20
+      ("max([1, null, 3])", "null", "max: null items after the first are skipped"), // F22
+      ("substring(\"abc\", 2.0)", "\"bc\"", "substring: integer-valued number written with fraction digits is rejected"), // F19
+      ("sublist([1, 2, 3], 2.0, 1.00)", "[2]", "sublist: integer-valued number written with fraction digits is rejected"),
+      ("insert before([1, 2], 1.0, 9)", "[9, 1, 2]", "insert before: integer-valued number written with fraction digits is rejected"),
+      ("remove([1, 2], -1.0)", "[1]", "remove: integer-valued number written with fraction digits is rejected"),
+      ("string({a: \"x\\\"y\", b: [null]})", "\"{a: \\\"x\\\\\\\"y\\\", b: [null]}\"", "string deviates from its specification"), // F26: entries are written like list items
     ];
     for (expr, want, sig) in special {
       let got = run_impl(&scope, expr);
